@@ -25,8 +25,8 @@ func Scan(data string, loc SourceLoc, delims []string) (tokens []Token) {
 		}
 		source := data[ts:te]
 		switch {
-		case data[ts:ts+len(delims[0])] == delims[0]:
-			if source[2] == '-' {
+		case strings.HasPrefix(source, delims[0]):
+			if source[len(delims[0])] == '-' {
 				tokens = append(tokens, Token{
 					Type: TrimLeftTokenType,
 				})
@@ -37,13 +37,13 @@ func Scan(data string, loc SourceLoc, delims []string) (tokens []Token) {
 				Source:    source,
 				Args:      data[m[2]:m[3]],
 			})
-			if source[len(source)-3] == '-' {
+			if source[len(source)-len(delims[1])-1] == '-' {
 				tokens = append(tokens, Token{
 					Type: TrimRightTokenType,
 				})
 			}
-		case data[ts:ts+len(delims[2])] == delims[2]:
-			if source[2] == '-' {
+		case strings.HasPrefix(source, delims[2]):
+			if source[len(delims[2])] == '-' {
 				tokens = append(tokens, Token{
 					Type: TrimLeftTokenType,
 				})
@@ -58,7 +58,7 @@ func Scan(data string, loc SourceLoc, delims []string) (tokens []Token) {
 				tok.Args = data[m[6]:m[7]]
 			}
 			tokens = append(tokens, tok)
-			if source[len(source)-3] == '-' {
+			if source[len(source)-len(delims[3])-1] == '-' {
 				tokens = append(tokens, Token{
 					Type: TrimRightTokenType,
 				})
